@@ -340,6 +340,16 @@ class RTFDocument(BaseModel):
         if self.df is not None:
             is_multi_section = isinstance(self.df, list)
 
+            # The widths filled in below belong to this document: work on copies
+            # of the components so the caller's objects stay as they were given
+            def _own(component):
+                if isinstance(component, list):
+                    return [_own(item) for item in component]
+                return component.model_copy() if component is not None else None
+
+            self.rtf_body = _own(self.rtf_body)
+            self.rtf_column_header = _own(self.rtf_column_header)
+
             if is_multi_section:
                 # Handle multi-section documents
                 for section_df, section_body in zip(
